@@ -14,7 +14,7 @@ VERIF = os.path.dirname(os.path.dirname(os.path.abspath(__file__)))
 REPO = os.environ.get("VERIF_REPO", "/repo")
 SCRATCH_ROOT = os.environ.get("VERIF_SCRATCH", "/var/tmp")
 HARNESS_DIR = os.path.join(VERIF, "harness")
-EVIDENCE_DIR = os.path.join(VERIF, "evidence")
+EVIDENCE_DIR = os.environ.get("VERIF_EVIDENCE_DIR") or os.path.join(VERIF, "evidence")
 CACHE_DIR = os.path.join(VERIF, ".cache")
 
 LIB_APPEND = (
